@@ -192,7 +192,15 @@ TrRunEnd ==
           <<(expect.sites /\ Completed) => \A f \in DOMAIN expect.siteMust : ToSet(expect.siteMust[f]) \subseteq sites[f], "RunEnd:permitted-site-not-rewritten">>
         >>))
 
+\* cross-run comparisons computed by the harness (dry vs real, batch vs chain, perturbed vs reference run, second run)
+TrCompare ==
+  /\ IsEv("Compare")
+  /\ pc = "done"
+  /\ UNCHANGED <<vars, expect, changed, sites>>
+  /\ Advance(Fails(<< <<Ev.equal, "Compare:" \o Ev.what>> >>))
+
 TraceNext ==
+  \/ TrCompare
   \/ TrRunStart \/ TrSelected \/ TrCodemodStart \/ TrFileBegin \/ TrFileEnd \/ TrMerge
   \/ TrCodemodEnd \/ TrDeps \/ TrReportBuilt \/ TrReportWritten \/ TrRunEnd
 
